@@ -197,8 +197,8 @@ Fixpoint next_inside (fuel : nat) (l0 : lx) : token * lx :=
        let lit := span (fun x => is_digit x || is_dot x) (lrest l) in
        let l' := advn (length lit) l in
        match number_kind lit with
-       | ILLEGAL => now_tok (lline l') ILLEGAL lit l'
-       | k => tail_tok sl k lit l'       (* break -> common tail: one more byte is consumed *)
+       | ILLEGAL => now_tok sl ILLEGAL lit l'       (* stamped with the line it starts on *)
+       | k => now_tok sl k lit l'        (* returned at once, like a number that starts with a digit *)
        end
      else one l DOT)
   else if c =? 43 then one l PLUS
@@ -251,7 +251,7 @@ Fixpoint next_inside (fuel : nat) (l0 : lx) : token * lx :=
   else if is_digit c then
     let lit := span (fun x => is_digit x || is_dot x) (lrest l) in
     (match number_kind lit with
-     | ILLEGAL => now_tok (lline (advn (length lit) l)) ILLEGAL lit (advn (length lit) l)
+     | ILLEGAL => now_tok sl ILLEGAL lit (advn (length lit) l)
      | k => now_tok sl k lit (advn (length lit) l)
      end)
   else one l ILLEGAL.
